@@ -175,11 +175,13 @@
                  (if (parser/has-more p) (type (parser/produce p)) st))
     "state" (fn [src] (def p (parser/new)) (parser/consume p src)
               (+ (length (parser/state p :frames)) (length (parser/state p :delimiters))))
-    "clone" (fn [src] (def p (parser/new)) (parser/consume p src 0 (div (length src) 2))
-              (def q (parser/clone p)) (parser/consume q src (div (length src) 2)) (gccollect)
+    "clone" (fn [src] (def p (parser/new)) (def half (div (length src) 2))
+              (parser/consume p (string/slice src 0 half))
+              (def q (parser/clone p)) (parser/consume q (string/slice src half)) (gccollect)
               (parser/status q))
-    "gc" (fn [src] (def p (parser/new)) (parser/consume p src 0 (div (length src) 2)) (gccollect) (gccollect)
-           (parser/consume p src (div (length src) 2)) (parser/status p))
+    "gc" (fn [src] (def p (parser/new)) (def half (div (length src) 2))
+           (parser/consume p (string/slice src 0 half)) (gccollect) (gccollect)
+           (parser/consume p (string/slice src half)) (parser/status p))
     "eval-string" (fn [src] (type (eval-string src)))})
 (def parse-consumer-names ["parse" "parse-all" "bytewise" "state" "clone" "gc" "eval-string"])
 
@@ -204,7 +206,7 @@
     "var-set" (fn [n] (tuple 'do '(var v 0) (nestf n 1 |(tuple 'set 'v $))))
     "upscope" (fn [n] (nestf n 1 |(tuple 'upscope $)))
     "break" (fn [n] (nestf n 1 |(tuple 'while true (tuple 'break $))))
-    "splice" (fn [n] (nestf n [1] |(tuple 'tuple (tuple 'splice $))))
+    "splice" (fn [n] (nestf n (tuple/brackets 1) |(tuple 'tuple (tuple 'splice $))))
     "quote" (fn [n] (tuple 'quote (mk-tup n)))
     "quasi" (fn [n] (tuple 'quasiquote (mk-tup n)))
     "quasi-unquote" (fn [n] (nestf n 1 |(tuple 'quasiquote (tuple 'a (tuple 'unquote $)))))
@@ -252,7 +254,7 @@
     "eval" (fn [form] (type ((compile-or-cerr form (make-env)))))
     "macex" (fn [form] (type (macex form)))
     "compile-gc-disasm" (fn [form] (def f (compile-or-cerr form (make-env))) (gccollect) (length (disasm f)))
-    "compile-marshal" (fn [form] (def f (compile-or-cerr form (make-env))) (length (marshal f)))})
+    "compile-marshal" (fn [form] (def f (compile-or-cerr form (make-env))) (length (marshal f make-image-dict)))})
 (def form-consumer-names ["compile" "eval" "macex" "compile-gc-disasm" "compile-marshal"])
 
 # macro expansion depth: environment with recursive macros
